@@ -28,11 +28,18 @@ pub fn observe(bytes: &[u8], cfg: &Cfg, order: &[String]) -> Result<(Vec<String>
                     let mut data = vec![];
                     let mut buf = vec![0u8; 1 + (n.len() * 37) % 200];
                     let mut err = None;
+                    let mut retries = 0;
                     loop {
                         match f.data.read(&mut buf) {
                             Ok(0) => break,
                             Ok(k) => data.extend_from_slice(&buf[..k]),
-                            Err(e) => { err = Some(io_err_class(&e)); break; }
+                            Err(e) => {
+                                // a caller may call `read` again after an error: whatever comes
+                                // back then still counts as bytes of this file, at the next offsets
+                                if err.is_none() { err = Some(io_err_class(&e)); }
+                                retries += 1;
+                                if retries > 3 { break; }
+                            }
                         }
                     }
                     out.push((n, FileObs { data, err }));
